@@ -42,12 +42,6 @@ structure Inv (N scale F : Nat) (flow : Int → Nat) (cfg : VcCfg ℚ) (s : KS) 
   a : AInv N scale F flow cfg a s.now
   l : LInv a (histOf s.trace)
 
-theorem putPk_append (h1 h2 : List (HEv ℚ)) : putPk flow size (h1 ++ h2) = putPk flow size h1 ++ putPk flow size h2 := by
-  simp [putPk, List.filterMap_append]
-
-theorem outPk_append (h1 h2 : List (HEv ℚ)) : outPk flow size (h1 ++ h2) = outPk flow size h1 ++ outPk flow size h2 := by
-  simp [outPk, List.filterMap_append]
-
 /-- **one kernel step**: it is `.ok`, keeps the invariant, uses one unit of the step budget, and is a sequence of actions the
 LTS accepts from `toM a` to `toM a'` in which the packets `put` / sent out are those the kernel step reports -/
 theorem inv_step_lts (fuel : Nat) (h : Inv N scale F flow cfg s a) (hp : popMin s.agenda = some (q, rest)) :
